@@ -35,6 +35,7 @@ MANIFEST = {
 PARENT_SRC = '''
 from typing import Iterator, Generator
 def f(x: int, y: str = "a", *args, **kw) -> bool: ...
+def t(x: int, y: str = "a") -> tuple[int, str]: ...
 class K:
     a: int = 0
     b: str
@@ -75,6 +76,9 @@ def menu():
         add(kind, "gn", items=[_item("", "str", D2), _item("r", "int")])
     add("returns", "s", items=[_item("", "int")])
     add("returns", "gn", items=[_item("r", None)])
+    # un-annotated items under a parent returning a tuple: one item takes the whole annotation, several take one element each
+    add("returns", "gn", items=[_item("r", None)], parent="tuple")
+    add("returns", "gn", items=[_item("r", None, D2), _item("s", None)], parent="tuple")
     for kind in ("raises", "warns"):
         st = "gns" if kind == "raises" else "gn"
         add(kind, st, items=[_item(None, "ValueError")])
@@ -116,6 +120,8 @@ def cases(tier):
                 kinds = [MENU[i]["kind"] for i in combo]
                 if len(set(kinds)) != len(kinds):
                     continue
+                if "attributes" in kinds and any(MENU[i].get("parent") == "tuple" for i in combo):
+                    continue  # one docstring has one parent
                 if style != "google" and any(k == "text" and j > 0 for j, k in enumerate(kinds)):
                     # Numpy and Sphinx syntax have no way to end a section other than starting the next one:
                     # free text after a section is not expressible, hence not "well-formed"
@@ -364,6 +370,8 @@ def expected(sections, style, opts, parent_kind):
                     name = ""
                 if ann is None and k == "returns" and parent_kind == "function":
                     ann = "bool"
+                elif ann is None and k == "returns" and parent_kind == "function-tuple":
+                    ann = ("int", "str")[items.index(it)] if len(items) > 1 else "tuple[int, str]"
                 vals.append({"name": name, "annotation": ann, "description": _join(it["desc"], style)})
             exp.append({"kind": k, "value": vals})
         elif k in ("raises", "warns"):
@@ -450,8 +458,8 @@ def run_case(env, acc, case):
         sections = [{"kind": "text", "text": [["Summary line."]]}] + sections
         if sections[1]["kind"] == "text":
             sections = [{"kind": "text", "text": [["Summary line."]] + sections[1]["text"]}] + sections[2:]
-    parent_kind = "class" if any(s["kind"] == "attributes" for s in sections) else "function"
-    parent = env["mod"]["K"] if parent_kind == "class" else env["mod"]["f"]
+    parent_kind = "class" if any(s["kind"] == "attributes" for s in sections) else "function-tuple" if any(s.get("parent") == "tuple" for s in sections) else "function"
+    parent = env["mod"]["K"] if parent_kind == "class" else env["mod"]["t"] if parent_kind == "function-tuple" else env["mod"]["f"]
     text = RENDER[style](sections, opts)
     if not summary:
         # as in source code: the docstring opens with a line break, so that cleandoc keeps the items' indentation
